@@ -7,8 +7,8 @@ target untouched" are decided by TLC instead of holding by construction.
 
 Binding (spec -> code), everything expected comes from TLC's EMIT records:
 
-* transition coverage (harness/graph.cover) of the reachable state graph into
-  pairs of REAL modules of every type targets are made of; a model tree is
+* transition coverage (cover_multi: harness/graph.cover for several initial
+  states) of the reachable state graph into pairs of REAL modules of every type targets are made of; a model tree is
   written into every element of every nnx.Variable of the module (each element
   is assigned to one of the K leaf classes by a layout), the real
   soft_/hard_target_net_update / nnx.clone / in-place online write is applied
@@ -19,7 +19,13 @@ Binding (spec -> code), everything expected comes from TLC's EMIT records:
   with target=None; TLC's path Create -> Online -> Hard -> Online ... is
   replayed on the modules the routine returns.
 
-The coordinator's driver (c06.py) calls run_law(rep) and replay_law(d, rep).
+* supplement (not TLC's arithmetic): generic float32 parameters, tau 0.005 /
+  0.3, against the harness' exact rational value within the same bound.
+
+The coordinator's driver (c06.py) calls run_law(rep) and replay_law(d, rep);
+for the cadence clause it can import zoo, leaves, snapshot, same_snapshot,
+shared_variables, polyak_bound and relation(prev_target, online, new_target, tau).
+VERIF_TLC_WORKERS caps the TLC workers (default 16).
 """
 from __future__ import annotations
 
@@ -317,7 +323,6 @@ def pair_step(ad: NetPair, op, args, exp=None, pre=None, post=None):
 
     from rl_blox.blox.target_net import hard_target_net_update, soft_target_net_update
 
-    fn = FN[op]
     if op == "Supply":
         ad.target = ad.supply()
         write_tree(ad.target, args["t"], ad.layout)
@@ -508,7 +513,7 @@ def _jobs(quick):
 
     def job(name, consts, workers=W, coverage=False, **kw):
         cfg = tlc.cfg_text(constants=consts, **kw)
-        jobs[name] = lambda: tlc.run("TargetNet", cfg, workers=workers, coverage=coverage, tag="tn" + "".join(c for c in name if c.isalnum())[:10])
+        jobs[name] = lambda: tlc.run("TargetNet", cfg, workers=workers, coverage=coverage, timeout=2400, tag="tn" + "".join(c for c in name if c.isalnum())[:10])
 
     job(P_HIST, _consts([0, 3], 4 if quick else 6, True, False), invariants=HIST_INVS, properties=PROPS)
     job(P_LAWS, _consts(six, 3 if quick else 5, False, False), invariants=STATE_INVS)
